@@ -187,6 +187,14 @@ func mutantsCmd(repo, dir, only, tier string, withTests bool) int {
 		if neg {
 			expect = "clean"
 		}
+		if strings.HasPrefix(name, "weak-") {
+			// a breaking change this tier is known to find only some of the time (recorded in its meta.json):
+			// either outcome is accepted here, a false INFRA is not
+			expect = "VIOLATION-or-clean"
+			if got == "clean" || got == "VIOLATION" {
+				expect = got
+			}
+		}
 		if got != expect {
 			failures++
 			note += " | stderr: " + tail(se.String(), 600)
